@@ -126,7 +126,7 @@ Inductive xcmd :=
 Definition default_options : set_options :=
   {| o_nx := false; o_xx := false; o_get := false; o_exp := None; o_keepttl := false |}.
 
-(** the while-loop of parse_set over frames[3..]; [ex] / [px]: EX / PX has been seen (0e6458f: each
+(** the while-loop of parse_set over frames[3..]; [ex] / [px]: EX / PX has been seen (d6b03fb: each
     excludes the other, as in the direct command) *)
 Fixpoint parse_set_options (opts : list frame) (o : set_options) (ex px : bool) : option set_options :=
   match opts with
@@ -143,7 +143,7 @@ Fixpoint parse_set_options (opts : list frame) (o : set_options) (ex px : bool) 
           else if beq u (bs "GET") then
             parse_set_options rest {| o_nx := o_nx o; o_xx := o_xx o; o_get := true; o_exp := o_exp o; o_keepttl := o_keepttl o |} ex px
           else if beq u (bs "EX") then
-            if px then None else                             (* 0e6458f *)
+            if px then None else                             (* d6b03fb *)
             match rest with
             | [] => None
             | a :: rest' =>
@@ -155,7 +155,7 @@ Fixpoint parse_set_options (opts : list frame) (o : set_options) (ex px : bool) 
                 end
             end
           else if beq u (bs "PX") then
-            if ex then None else                             (* 0e6458f *)
+            if ex then None else                             (* d6b03fb *)
             match rest with
             | [] => None
             | a :: rest' =>
@@ -245,7 +245,7 @@ Definition parse_k_pairs (c : bytes -> list (bytes * bytes) -> xcmd) (fr : list 
   | _ => None
   end.
 
-(** parse_setex / parse_psetex (0bd9e72): the count is refused when 0, right after it is parsed *)
+(** parse_setex / parse_psetex (02eb367): the count is refused when 0, right after it is parsed *)
 Definition parse_pos_u64 (b : bytes) : option Z :=
   match parse_u64 b with Some n => if n =? 0 then None else Some n | None => None end.
 
@@ -361,7 +361,7 @@ Definition parse_named (name : bytes) (fr : list frame) : option xcmd :=
       else if beq name (bs "MGET") then parse_ks XMGet fr
       else if beq name (bs "MSET") then parse_mset fr
       else if beq name (bs "INCR") then parse_k XIncr fr
-      else if beq name (bs "INCRBY") then parse_k_int parse_canonical XIncrBy fr        (* 5887f54 *)
+      else if beq name (bs "INCRBY") then parse_k_int parse_canonical XIncrBy fr        (* e4bcfd7 *)
       else if beq name (bs "DECR") then parse_k XDecr fr
       else if beq name (bs "DECRBY") then parse_k_int parse_canonical XDecrBy fr
       else if beq name (bs "SETNX") then parse_kv XSetNx fr
